@@ -667,6 +667,7 @@ class FnEdit:
         self.ret = None
         self.spec = None     # (text, tmpl_line)
         self.loops = {}      # k -> (text, line)
+        self.expandreps = []  # (file, macro): macros with one `$( .. )*` repetition list, expanded in place
         self.loopall = None  # (text, line): loop annotation for every loop without its own `loop K`
         self.start = None
         self.anchors = []    # (where, n, regex, text, line)
@@ -780,6 +781,10 @@ class Generator:
                 self.log.append({'assumption': d[len('assume'):].strip()})
             elif cmd == 'include':
                 self._process_template(os.path.join(VX_DIR, tok[1]), self._kv(tok[2:]))
+            elif cmd == 'simdsigs':
+                import simdsigs
+                for gl in simdsigs.generate(self, tok[1]):
+                    self.emit(gl, 'tmpl', rel, i + 1)
             elif cmd == 'avxsigs':
                 import avxsigs
                 self.Inconclusive = Inconclusive
@@ -893,6 +898,8 @@ class Generator:
                     e.untransmute = True
                 elif c == 'inline':
                     e.inlines.append((tok[1], tok[2]))
+                elif c == 'expandrep':
+                    e.expandreps.append((tok[1], tok[2]))
                 elif c == 'sig':
                     e.sig = d[len('sig'):].strip()
                 elif c == 'selfmut':
@@ -1190,6 +1197,70 @@ class Generator:
         self._emit_fn(text, frel, line0, '%s!' % macro, kv, edit, trel, tline)
 
 
+    def _expand_rep_macros(self, text, specs):
+        """`//@ expandrep FILE MACRO`: every invocation `MACRO!(a1, .., { i1, i2, .. })` inside the function is replaced by the
+        transcription of the macro's single rule `(P1, .., { $($idx:literal),* }) => { BODY }`: `$(...)*` groups of BODY are repeated
+        once per list element with `$idx` replaced, the other `$name`s are replaced by the argument text - what macro_rules does for
+        this shape of rule (identifier / literal fragments only, one repetition variable).  R12-rep, counted per invocation."""
+        for frel, macro in specs:
+            f = self.file(frel)
+            its = f.find_named('macro', macro)
+            if len(its) != 1:
+                raise Inconclusive('macro %s in %s: found %d' % (macro, frel, len(its)))
+            mac = its[0]
+            m = f.m
+            p0 = m.find('(', mac.body_open)
+            p1 = rsscan.match_close(m, p0)
+            pat = f.src[p0 + 1:p1]
+            # pattern: comma separated `$name:frag` and exactly one `{ $($rep:literal),* }`
+            pm = re.fullmatch(r'\s*((?:\$\w+\s*:\s*(?:ident|literal|expr)\s*,\s*)*)\{\s*\$\(\s*\$(\w+)\s*:\s*literal\s*\)\s*,\s*\*\s*\}\s*', pat)
+            if not pm:
+                raise Inconclusive('macro %s: unsupported pattern %r' % (macro, ' '.join(pat.split())))
+            names = re.findall(r'\$(\w+)\s*:', pm.group(1))
+            rep = pm.group(2)
+            mt = re.match(r'\s*=>\s*[\(\{]', m[p1 + 1:])
+            if not mt:
+                raise Inconclusive('macro %s: cannot find rule body' % macro)
+            bo = p1 + 1 + mt.end() - 1
+            bc = rsscan.match_close(m, bo)
+            body_src = re.sub(r'//[^\n]*', '', f.src[bo + 1:bc])
+            n = 0
+            while True:
+                tm = rsscan.mask(text)
+                iv = re.search(r'\b%s\s*!\s*\(' % re.escape(macro), tm)
+                if not iv:
+                    break
+                op = iv.end() - 1
+                cl = rsscan.match_close(tm, op)
+                parts = split_top_commas(tm, op + 1, cl)
+                args = [text[x:y].strip() for x, y in parts]
+                if len(args) != len(names) + 1 or not re.fullmatch(r'\{[\s\d,]*\}', args[-1]):
+                    raise Inconclusive('macro %s: invocation does not fit the rule' % macro)
+                idxs = [q.strip() for q in args[-1].strip('{} \n').split(',') if q.strip()]
+                body = body_src
+                # repetition groups
+                while True:
+                    bm = rsscan.mask(body)
+                    g = re.search(r'\$\(', bm)
+                    if not g:
+                        break
+                    gop = g.end() - 1
+                    gcl = rsscan.match_close(bm, gop)
+                    if bm[gcl + 1:gcl + 2] != '*':
+                        raise Inconclusive('macro %s: repetition with a separator is not supported' % macro)
+                    inner = body[gop + 1:gcl]
+                    body = body[:g.start()] + ''.join(re.sub(r'\$%s\b' % rep, ix, inner) for ix in idxs) + body[gcl + 2:]
+                for nm, val in zip(names, args[:-1]):
+                    body = re.sub(r'\$%s\b' % nm, lambda _m, v=val: v, body)
+                if '$' in rsscan.mask(body):
+                    raise Inconclusive('macro %s: unsubstituted $ remains after expansion' % macro)
+                text = text[:iv.start()] + ' '.join(body.split()) + text[cl + 1:]
+                n += 1
+            if n:
+                self._count('R12-rep2', n)
+                self.log.append({'rule': 'R12-rep2', 'macro': macro, 'file': frel, 'count': n})
+        return text
+
     def _inline_stmt_macros(self, text, specs):
         """`//@ inline FILE MACRO`: every statement-position invocation `MACRO!(args);` inside the function is replaced by the body of
         the macro's (single) rule.  A closure-valued argument `|p1, p2| BODY` applied in the body as `$name(a1, a2)` becomes
@@ -1279,6 +1350,8 @@ class Generator:
             text = text[:bo0] + '{ }' + '\n' * text[bo0:].count('\n')
         if edit.inlines and not fhits:
             text = self._inline_stmt_macros(text, edit.inlines)
+        if edit.expandreps:
+            text = self._expand_rep_macros(text, edit.expandreps)
         text = self._apply_rules(text, frel, line0)
         if edit.selfmut:
             # R15: `mut self` receiver (unsupported by Verus) -> `self` moved into a mutable local of the given name; every
